@@ -102,6 +102,21 @@ func (c *ctx) generatorOrder() {
 						if call, ok := fc.par[fn].(*ast.CallExpr); ok && isWalk(call) {
 							in = true
 						}
+						// the visitor kept in a local variable that is handed to the walk
+						if as, ok := fc.par[fn].(*ast.AssignStmt); ok && len(as.Lhs) == 1 {
+							if vobj := astx.IdentObj(info, as.Lhs[0]); vobj != nil {
+								ast.Inspect(fc.file, func(m ast.Node) bool {
+									if call, ok := m.(*ast.CallExpr); ok && isWalk(call) {
+										for _, a := range call.Args {
+											if astx.IdentObj(info, a) == vobj {
+												in = true
+											}
+										}
+									}
+									return true
+								})
+							}
+						}
 					case *ast.FuncDecl:
 						if fn.Name.Name == "Visit" {
 							in = true
